@@ -34,4 +34,20 @@ PLAN = {
         "level_note": "Trusted: Verus/Z3, Kani/CBMC, the extractor; vstd's specification of `<=`/`>=` on &T via partial_cmp_spec; total_order/unbounded are hypotheses of the lemmas (stated, not assumed globally). The RangeBounds and float clauses are decided at i8/f32 only.",
         "technique": "Verus contracts on the extracted generic functions + set-relation lemmas; Kani complete harnesses at i8/f32",
     },
+    "C13": {
+        "level": "proof",
+        "kani": {"prefix": ["c13_"], "thorough_prefix": ["c13t_"]},
+        "assumptions": [PARAMETRIC, "integer overflow in bound computations excluded by precondition (kani::assume on the i16 images)"],
+        "level_text": "Proof at i8 (all intervals, all scalars, all members): one loop-free Kani harness per operation x kind asserts soundness (universal member), tightness (finite bounds are images of bounds), well-formedness and the kind of the result for A+k, A-k, A*k, A/k, -A, and one per compatible kind pair for A+B, A-B. relative_to is a BOUNDED stand-in (bounds and members on the f32 grid 0..16), never counted as proved.",
+        "level_note": "Trusted: Kani/CBMC. Generic statement rests on parametricity in the element type (the code only uses the operator and comparisons). relative_to: bounded(grid 0..=16 as f32). Overflow of the element type is excluded by precondition.",
+        "technique": "Kani complete harnesses at i8 per operation x kind; bounded grid harness for relative_to",
+    },
+    "C15": {
+        "level": "proof",
+        "kani": {"prefix": ["c15_"], "thorough_prefix": ["c15t_"]},
+        "assumptions": [PARAMETRIC],
+        "level_text": "Proof at i8: partial_cmp (or-patterns with guards, outside Verus' subset) is checked by loop-free Kani harnesses over all pairs/triples of well-formed intervals of all kinds against a specification written from the property (Equal iff ==; Less iff != and sup(a) <= inf(b), tied to members by universal probes and extreme witnesses; antisymmetry; transitivity; incomparability).",
+        "level_note": "Trusted: Kani/CBMC; parametricity in T: PartialOrd (an i8 chain of 256 points realises every relative order of six bounds).",
+        "technique": "Kani complete harnesses over all i8 interval pairs/triples",
+    },
 }
